@@ -19,6 +19,10 @@ SPEC = {
         {"name": "snapshot", "pkg": "./snapshot", "search_cases": 200, "timeout_quick": 300, "timeout_thorough": 900},
         # "so silences keep muting ... after a restart": the mute verdict after snapshot reload is C02's engine
         {"name": "silencer", "pkg": "./silencer", "search_cases": 6000, "quick_cases": 1200},
+        # the loader's verdict is only as good as what the application does with it: a torn notification-log snapshot in the
+        # data directory of the REAL application (app.New): it must refuse to start and leave the file alone (only the torn cases run here)
+        {"name": "reload", "pkg": "./reload", "search_cases": 6, "timeout_quick": 400, "timeout_thorough": 900, "timeout_search": 400,
+         "env": {"VERIF_RELOAD_ONLY": "torn"}, "only": ["decode_truncated"]},
     ],
     "rule": "real nflog.Log and silence.Silences: (a) generated stores (0..200 records quick, ..5000 thorough; shapes mix/min/multi/big, "
             "contents through Merge and through the write APIs Log/Set) -> Snapshot or real Maintenance -> load through SnapshotReader/SnapshotFile "
@@ -35,7 +39,9 @@ SPEC = {
             "its crash state is materialised WITH the temp file under the name the real code used; a second process's attempt is traced over such a "
             "directory (name + flags -> the discipline HistOK is evaluated by histOKb on every crash point of attempt 1), then the REAL Maintenance "
             "snapshots a smaller state (0-1 records) in-process over each materialised crash state, the target is read back (must be exactly the new "
-            "snapshot, compared with the model's runHist) and loaded by the real loader. A case is non-trivial when it hits a tagged branch; distinct = distinct hash of its lines",
+            "snapshot, compared with the model's runHist) and loaded by the real loader. (f) engine reload, torn cases only: a 3-record notification-log snapshot cut 1..20 bytes before its end in the data directory of the REAL "
+            "application (app.New): it refuses to start and the file is untouched. "
+            "A case is non-trivial when it hits a tagged branch; distinct = distinct hash of its lines",
     "assumptions": [
         "protobuf field codec round-trips (decodeMsg (encodeMsg m) = some m): the harness uses proto.Unmarshal as the oracle for payloads",
         "file system: fsync makes the file's data durable on return; rename is atomic; directory operations persist in order (weak) or on return (strong); "
